@@ -298,6 +298,7 @@ def execute(program: dict) -> dict:
     states: list = []
     steps = 0
     judged_fault = False
+    trunc_budget = 2400000
     doc = program["doc"]
     with World() as world:
         try:
@@ -342,7 +343,11 @@ def execute(program: dict) -> dict:
                     if v["mode"] == "all" and n <= 220:
                         offs = list(range(n))
                     else:
-                        step = max(1, n // max(8, min(200, 1500000 // n)))  # bound the characters re-parsed
+                        # bound the characters re-parsed: 1.5 M per variant, 2.4 M per run (a 10 000 character
+                        # document with four truncation variants otherwise costs 10-20 s)
+                        share = max(0, min(1500000, trunc_budget))
+                        trunc_budget -= share
+                        step = max(1, n // max(8, min(200, share // n)))
                         offs = sorted(set(list(range(0, n, step)) + [min(n - 1, max(0, int(v["f"] * n)))]
                                           + [e for s, e in spans[-12:]] + [max(0, e - 1) for s, e in spans[-12:]]))
                         offs = [o for o in offs if 0 <= o < n]
